@@ -150,6 +150,29 @@ class Cx:
         self.F = lib
 
 
+def _alias_key(lib, key, open_keys):
+    """key with the path of a renamed function replaced by the name an open finding knows it under, or None"""
+    try:
+        from rules import common as C
+        fps = C.load_fingerprints()
+        gone = {p: fp for p, fp in fps.items() if p not in lib.fns and any(p in k for k in open_keys)}
+        if not gone:
+            return None
+        by_fp = {}
+        for p, fp in gone.items():
+            by_fp.setdefault(fp, []).append(p)
+        for f in lib.user_fns():
+            if f.kind in ('Fn', 'AssocFn') and f.path not in fps and f.path in key:
+                olds = by_fp.get(C.fingerprint(lib, f), [])
+                if len(olds) == 1:
+                    k2 = key.replace(f.path, olds[0])
+                    if k2 in open_keys:
+                        return k2
+    except Exception:
+        return None
+    return None
+
+
 def load_known():
     p = os.path.join(VERIF, 'known_findings.json')
     if not os.path.exists(p):
@@ -243,6 +266,12 @@ def run_property(prop, tier='quick', repo=REPO):
         for v in rec.violations:
             if v['key'] in open_keys:
                 known_hits.append((v, open_keys[v['key']]))
+                continue
+            # the same finding in a function that was merely renamed: re-identified by its rename-stable fingerprint
+            k2 = _alias_key(lib, v['key'], open_keys)
+            if k2 is not None:
+                v = dict(v, key=k2, msg=v['msg'] + '\n(the function named in the finding was renamed; identified by fingerprint)')
+                known_hits.append((v, open_keys[k2]))
             else:
                 new_violations.append(v)
     for v, k in known_hits:
